@@ -141,13 +141,17 @@ func (g *c07Gen) program(steps int) *zr.Program {
 		var st []zr.Stmt
 		nvars := len(g.vars)
 		switch r.Intn(14) {
-		case 0: // copy by 令
+		case 0: // copy by 令 (设为 or 恒为)
 			src, ok := g.pickVar("list", "dict", "obj")
 			if !ok {
 				continue
 			}
 			n := g.fresh("乙")
 			st = []zr.Stmt{zr.LetS(n, zr.N(src.name))}
+			if r.Intn(3) == 0 {
+				st = []zr.Stmt{zr.ConstS(n, zr.N(src.name))}
+				g.feat["copy-const"] = true
+			}
 			g.vars = append(g.vars, c07Var{n, src.kind})
 			g.feat["copy-let-"+src.kind] = true
 		case 1: // multi declaration
@@ -156,7 +160,12 @@ func (g *c07Gen) program(steps int) *zr.Program {
 				continue
 			}
 			a, b := g.fresh("丙"), g.fresh("丁")
-			st = []zr.Stmt{zr.Let{Pairs: []zr.LetPair{{Names: []string{a, b}, Val: zr.N(src.name)}}}}
+			var val zr.Expr = zr.N(src.name)
+			if r.Intn(3) == 0 {
+				val, _ = g.collection(2) // several names from one literal: each its own copy
+				g.feat["multi-from-literal"] = true
+			}
+			st = []zr.Stmt{zr.Let{Pairs: []zr.LetPair{{Names: []string{a, b}, Val: val, Const: r.Intn(3) == 0}}}}
 			g.vars = append(g.vars, c07Var{a, src.kind}, c07Var{b, src.kind})
 			g.feat["copy-multi"] = true
 		case 2: // assignment between variables of same kind
@@ -191,13 +200,19 @@ func (g *c07Gen) program(steps int) *zr.Program {
 			// kind unknown: treat as scalar holder (only displayed)
 			g.vars = append(g.vars, c07Var{n, "any"})
 			g.feat["copy-out-of-element"] = true
-		case 5, 6: // deep element write
+		case 5, 6: // deep element write / in-place numeric update
 			dst, ok := g.pickVar("list", "dict", "any")
 			if !ok {
 				continue
 			}
-			st = []zr.Stmt{zr.Set(g.path(zr.N(dst.name), 1+r.Intn(3)), g.scalar())}
-			g.feat["write-deep"] = true
+			if r.Intn(3) == 0 {
+				m := []string{"自增", "自减"}[r.Intn(2)]
+				st = []zr.Stmt{zr.ExprStmt{E: zr.MCall{Recv: g.path(zr.N(dst.name), 1+r.Intn(3)), Chain: []zr.CallPart{{Fn: m, Args: []zr.Expr{intLit(1 + r.Intn(9))}}}}}}
+				g.feat["in-place-"+m] = true
+			} else {
+				st = []zr.Stmt{zr.Set(g.path(zr.N(dst.name), 1+r.Intn(3)), g.scalar())}
+				g.feat["write-deep"] = true
+			}
 		case 7: // mutating list method at depth
 			dst, ok := g.pickVar("list", "dict", "any")
 			if !ok {
@@ -303,7 +318,7 @@ func (g *c07Gen) program(steps int) *zr.Program {
 }
 
 func checkC07(c *Ctx) {
-	c.rule = "histories: 2-4 variables holding nested lists/dictionaries (depth<=3) and objects of a type with a list property; steps = copies via 令, multi-declaration, =, element assignment of whole collections, copies out of elements and loop variables, property assignment; mutations through any name at any depth (element/key writes on index paths, 后增 前增 左移 右移 交换 写入 移除, object property writes and methods through aliases), literals re-executed in loops; every variable is displayed after every step. Each step may fail (missing path): reference and implementation must then fail alike. Oracle: reference heap model (deep copy on declare/assign/element assign, objects by reference, fresh literals). distinct_nontrivial = distinct (feature set, history length, outcome kind) among histories with at least one copy and one later mutation"
+	c.rule = "histories: 2-4 variables holding nested lists/dictionaries (depth<=3) and objects of a type with a list property; steps = copies via 令, multi-declaration, =, element assignment of whole collections, copies out of elements and loop variables, property assignment; copies declared with 设为 and 恒为, several names from one literal; mutations through any name at any depth (element/key writes on index paths, in-place 自增/自减 on nested numbers, 后增 前增 左移 右移 交换 写入 移除, object property writes and methods through aliases), literals re-executed in loops; every variable is displayed after every step. Each step may fail (missing path): reference and implementation must then fail alike. Oracle: reference heap model (deep copy on declare/assign/element assign, objects by reference, fresh literals). distinct_nontrivial = distinct (feature set, history length, outcome kind) among histories with at least one copy and one later mutation"
 	c.assumptions = []string{"mutation through loop variables / method parameters is not generated (U2)", "display is compared atom-wise"}
 	rng := c.Rand("c07")
 	var progs []*zr.Program
